@@ -222,8 +222,8 @@ func Verif_C14_enumerate() {
 			}
 		}
 		// each DSDT pointer is either absent (0) or designates the DSDT slot; at least one is present
-		ptrs := zzverif.Choice("dsdtptrs", 3)
-		if place == 2 {
+		ptrs := zzverif.Choice("dsdtptrs", 4)
+		if place == 2 && ptrs != 3 {
 			ptrs = 1 // above 4 GiB only the 64-bit pointer can designate the table
 		}
 		switch ptrs {
@@ -235,8 +235,19 @@ func Verif_C14_enumerate() {
 			f.Dsdt, f.Ext.Dsdt = 0, uint64(dsdtAddr)
 		case 2:
 			f.Dsdt, f.Ext.Dsdt = uint32(dsdtAddr), uint64(dsdtAddr)
+		case 3:
+			// the FADT as firmware lays it out (ACPI 2.0+, packed): X_DSDT is the 8 bytes at offset 140; the Go struct
+			// puts Ext.Dsdt at offset 152 (GenericAddress is padded to 16 bytes, BootArchitectureFlags is misplaced).
+			// KF-C14-4: the driver reads the 64-bit DSDT pointer from the wrong offset.
+			zzverif.Assume(root.Revision >= 2)
+			f.Dsdt, f.Ext.Dsdt = 0, 0
+			*(*uint64)(unsafe.Pointer(base + vfFadtOff + 140)) = uint64(dsdtAddr)
+			zzverif.Known("KF-C14-4", true)
 		}
 		dsdtPtr32, dsdtPtr64 = f.Dsdt, f.Ext.Dsdt
+		if ptrs == 3 {
+			dsdtPtr64 = uint64(dsdtAddr)
+		}
 		d := vfHdr(dsdtAddr, 0)
 		d.Length = uint32(vfSlotLen)
 		zzverif.Assume(d.Signature != fadtSig)
